@@ -4,6 +4,7 @@ import GdcVerif.Gen.JpegLsNear
 import GdcVerif.Gen.JpegLsRun
 import GdcVerif.Model.JpegLsBits
 import GdcVerif.Model.Golomb
+import GdcVerif.Model.JpegLsRun
 /-!
   Driver ops for the JPEG-LS kernels: every op evaluates a GENERATED definition
   (`Gen/JpegLs*.lean`) — or the hand model `JpegLsBits.bitsLen` — on the arguments the real Go
@@ -118,7 +119,55 @@ def dv (hx : String) (a : List Int) : String :=
     | none => "err"
   | _ => "bad-op"
 
+def failStr : JpegLsRun.Fail → String
+  | .err => "err"
+  | .panic => "panic"
+
+def stInts (st : JpegLsRun.St) : List Int :=
+  [st.runIndex, st.ctx0.A, st.ctx0.N, st.ctx0.NN, st.ctx1.A, st.ctx1.N, st.ctx1.NN]
+
+/-- common argument layout of the run-segment ops:
+    `mode comps P near runIndex A0 N0 NN0 A1 N1 NN1 width x pixels…` (mode 0 = lossless package,
+    1 = near-lossless package: the model is the same, the harness drives the respective real code) -/
+def runsegArgs (a : List Int) : Option (Traits × Int × Int × JpegLsRun.St × Array Int × Int) :=
+  match a with
+  | _mode :: comps :: p :: near :: ri :: a0 :: n0 :: nn0 :: a1 :: n1 :: nn1 :: width :: x :: pixels =>
+    some (NewTraits (2 ^ p.toNat - 1) near 64, width, comps,
+      { runIndex := ri, ctx0 := { runInterruptionType := 0, A := a0, N := n0, NN := nn0 },
+        ctx1 := { runInterruptionType := 1, A := a1, N := n1, NN := nn1 } }, pixels.toArray, x)
+  | _ => none
+
+def runRa (p : Array Int) (width x : Int) : Int :=
+  if x > 0 then p.getD (width + x - 1).toNat 0 else p.getD 0 0
+
+/-- `jls-runseg-enc …` → `ok <bytes> processed runIndex A0 N0 NN0 A1 N1 NN1 pixels…` -/
+def runsegEnc (a : List Int) : String :=
+  match runsegArgs a with
+  | none => "bad-op"
+  | some (t, width, comps, st, p, x) =>
+    let r := if comps > 1 then JpegLsRun.encodeSegmentILV2 t width comps st p x
+             else JpegLsRun.encodeSegmentILV0 t width st p x (runRa p width x)
+    match r with
+    | .error f => failStr f
+    | .ok (ws, processed, p, st) =>
+      "ok " ++ bytesToHex (Golomb.finish (Golomb.writeAll Golomb.Writer.new ws)).out ++ " " ++
+        " ".intercalate ((processed :: stInts st ++ p.toList).map toString)
+
+/-- `jls-runseg-dec <bytes> …` → `ok processed runIndex A0 N0 NN0 A1 N1 NN1 pixels…` -/
+def runsegDec (hx : String) (a : List Int) : String :=
+  match runsegArgs a with
+  | none => "bad-op"
+  | some (t, width, comps, st, p, x) =>
+    let bs := Golomb.destuff (hexToBytes hx) false
+    let r := if comps > 1 then JpegLsRun.decodeSegmentILV2 t width comps st p x bs
+             else JpegLsRun.decodeSegmentILV0 t width st p x (runRa p width x) bs
+    match r with
+    | .error f => failStr f
+    | .ok (processed, p, st, _) => ok (processed :: stInts st ++ p.toList)
+
 def step? : List String → Option String
+  | "jls-runseg-dec" :: hx :: a => (ints? a).map (runsegDec hx)
+  | "jls-runseg-enc" :: a => (ints? a).map runsegEnc
   | "jls-dv" :: hx :: a => (ints? a).map (dv hx)
   | "jls-gw" :: a => (ints? a).map gw
   | "jls-emv" :: a => (ints? a).map emv
